@@ -1,6 +1,7 @@
 package main
 
 import (
+	"fmt"
 	"go/types"
 
 	"golang.org/x/tools/go/ssa"
@@ -150,17 +151,35 @@ func (x *Exec) execLookup(fr *Frame, st *State, i *ssa.Lookup) {
 // ---- range over maps / strings
 
 type rangeIter struct {
-	m    *Term
-	mt   *types.Map
+	m     *Term
+	mt    *types.Map
 	isStr bool
-	str  *Term
+	str   *Term
+	vheap string // ghost heap holding the visited set (single cell at index 0)
 }
 
 func (x *Exec) execRange(fr *Frame, st *State, i *ssa.Range) {
 	xv := asTerm(x.val(fr, st, i.X))
 	it := x.tt.Fresh("iter", "Int")
 	if mt, ok := i.X.Type().Underlying().(*types.Map); ok {
-		x.iters[it.id] = &rangeIter{m: xv, mt: mt}
+		ri := &rangeIter{m: xv, mt: mt}
+		// name the visited-set ghost after the loop that consumes the iterator
+		ord := 0
+		if refs := i.Referrers(); refs != nil {
+			for _, r := range *refs {
+				if nx, ok := r.(*ssa.Next); ok {
+					if l := fr.lf.Inner[nx.Block()]; l != nil {
+						ord = l.Ordinal
+					}
+				}
+			}
+		}
+		ri.vheap = fmt.Sprintf("I$visited%d$%s", ord, x.keySort(mt))
+		vs := arraySort("Int", arraySort(x.keySort(mt), "Bool"))
+		h := x.heap(st, ri.vheap, vs)
+		st.heaps[ri.vheap] = x.tt.Store(h, x.tt.IntLit(0), x.tt.ConstArray(arraySort(x.keySort(mt), "Bool"), x.tt.False()))
+		x.recordWrite(ri.vheap, x.tt.IntLit(0))
+		x.iters[it.id] = ri
 	} else {
 		x.iters[it.id] = &rangeIter{isStr: true, str: xv}
 	}
@@ -190,6 +209,16 @@ func (x *Exec) execNext(fr *Frame, st *State, i *ssa.Next) {
 	kt := x.keyTerm(mt, k)
 	dom := x.mapDom(st, ri.m, mt)
 	x.addFact(tt.Implies(ok, tt.Select(dom, kt)))
+	if ri.vheap != "" {
+		vs := arraySort("Int", arraySort(x.keySort(mt), "Bool"))
+		h := x.heap(st, ri.vheap, vs)
+		vis := tt.Select(h, tt.IntLit(0))
+		x.addFact(tt.Implies(ok, tt.Not(tt.Select(vis, kt))))
+		q := tt.Bound("q", x.keySort(mt))
+		x.addFact(tt.Implies(tt.Not(ok), tt.Forall([]*Term{q}, tt.Implies(tt.Select(dom, q), tt.Select(vis, q)))))
+		st.heaps[ri.vheap] = tt.Store(h, tt.IntLit(0), tt.Ite(ok, tt.Store(vis, kt, tt.True()), vis))
+		x.recordWrite(ri.vheap, tt.IntLit(0))
+	}
 	// an empty map yields no element
 	_, inner := splitArraySort(x.heapSorts["D$"+typeName(mt)])
 	x.addFact(tt.Implies(tt.Eq(dom, tt.ConstArray(inner, tt.False())), tt.Not(ok)))
